@@ -32,6 +32,14 @@ pub trait LdpcDecoder: std::fmt::Debug + Send {
         llrs: &[f64],
         max_iterations: usize,
     ) -> Result<DecoderOutput, DecoderOutput>;
+
+    /// Verification hook: name of the concrete decoder type behind a trait
+    /// object.
+    #[cfg(feature = "verif-hooks")]
+    #[doc(hidden)]
+    fn verif_type_name(&self) -> &'static str {
+        std::any::type_name::<Self>()
+    }
 }
 
 /// LDPC decoder output.
@@ -171,4 +179,22 @@ where
     llrs.iter()
         .map(|&llr| u8::from(hard_decision(llr)))
         .collect()
+}
+
+/// Verification hook: thin public wrappers of the private helpers used by the
+/// decoders, so that their contracts can be checked from outside the crate.
+#[cfg(feature = "verif-hooks")]
+#[doc(hidden)]
+pub mod verif_export {
+    use crate::sparse::SparseMatrix;
+
+    /// Calls the private `check_llrs`.
+    pub fn check_llrs<T: Copy, F: Fn(T) -> bool>(h: &SparseMatrix, llrs: &[T], hard_decision: F) -> bool {
+        super::check_llrs(h, llrs, hard_decision)
+    }
+
+    /// Calls the private `hard_decisions`.
+    pub fn hard_decisions<T: Copy, F: Fn(T) -> bool>(llrs: &[T], hard_decision: F) -> Vec<u8> {
+        super::hard_decisions(llrs, hard_decision)
+    }
 }
